@@ -37,3 +37,16 @@ func TestC14(t *testing.T) {
 	}()
 	simcheck.Explore(t, c, "C14", genC14, func(s C14Scenario) *simcheck.RunInfo { return RunC14(t, s) })
 }
+
+// TestC09 compares the in-process LogQL pipeline with the reference evaluator.
+func TestC09(t *testing.T) {
+	c := simcheck.NewCollector("read-c09")
+	defer c.Flush()
+	defer func() {
+		if r := recover(); r != nil {
+			c.HarnessError(fmt.Sprint(r))
+			t.Errorf("HARNESS-ERROR %v", r)
+		}
+	}()
+	simcheck.Explore(t, c, "C09", genC09, func(s C09Scenario) *simcheck.RunInfo { return RunC09(t, s) })
+}
